@@ -4,6 +4,7 @@ import TornadoModel.C30.Multipart
 import TornadoModel.C30.Multipart2231
 import TornadoModel.C30.Inner
 import TornadoModel.C30.Latin1
+import TornadoModel.C30.Entry
 import TornadoModel.Base.Wire
 namespace TornadoModel.C30
 open TornadoModel.C06 (Str)
@@ -358,6 +359,29 @@ theorem multipart_roundtrip_2231_prefilled (cfg : Config) (b : Bytes) (parts : L
   rw [R.parseMultipart_encoded_eq cfg b parts f hwf.enabled hs.boundary_plain hs.boundary_lf hs.fresh,
     if_neg (Nat.not_lt.mpr hwf.count)]
   exact R.foldlM_contents cfg parts f hs.partsOK (fun p hp => by rw [← R.headerSize_eq]; exact hwf.header_size p hp)
+
+/-! ### the multipart round trip at the `parse_body_arguments` entry -/
+
+/-- `multipart_roundtrip_entry`: the lossless clause where the property places it — `parse_body_arguments` with the header
+    `Content-Type: multipart/form-data; boundary=<bt>` (boundary text non-empty, without `;`, not ending in whitespace;
+    `BoundaryText`): the boundary is extracted from the header, handed over as UTF-8, and the encoded form is recovered
+    exactly.  Both parameter styles. -/
+theorem multipart_roundtrip_entry (cfg : Config) (bt : Str) (parts : List Spec.Part) (hbt : BoundaryText bt)
+    (hwf : WellFormed cfg (C43.utf8Enc bt) parts) (hlf : 10 ∉ C43.utf8Enc bt) :
+    parseBody cfg (ctHeader bt) (Spec.encodeMultipart (C43.utf8Enc bt) parts) false = .ok (Spec.expected parts) := by
+  rw [parseBody_multipart cfg bt hbt, multipart_roundtrip cfg _ parts hwf hlf]
+  rfl
+
+theorem multipart_roundtrip_2231_entry (cfg : Config) (bt : Str) (parts : List Spec.Part) (hbt : BoundaryText bt)
+    (hwf : R.WellFormed cfg (C43.utf8Enc bt) parts) (hlf : 10 ∉ C43.utf8Enc bt) :
+    parseBody cfg (ctHeader bt) (Spec.encodeMultipart2231 (C43.utf8Enc bt) parts) false = .ok (Spec.expected parts) := by
+  rw [parseBody_multipart cfg bt hbt, multipart_roundtrip_2231 cfg _ parts hwf hlf]
+  rfl
+
+/-- non-vacuity: the boundary text `zZ9` -/
+example : BoundaryText [122, 90, 57] ∧ C43.utf8Enc [122, 90, 57] = [122, 90, 57] := by
+  refine ⟨?_, by decide⟩
+  constructor <;> decide
 
 /-! ### limits -/
 
